@@ -170,9 +170,9 @@ func TestCheck(t *testing.T) {
 		return
 	}
 	idx := 0
-	maxLen := 1200
+	maxLen := 4096
 	if r.Thorough() {
-		maxLen = 4096
+		maxLen = 16384
 	}
 	sub32 := []byte{0, 1, 2, 7, 8, 0x0F, 0x10, 0x1F, 0x20, 0x2E, 0x2F, 0x3F, 0x40, 0x5C, 0x60, 0x7E, 0x7F, 0x80, 0x81, 0xA0, 0xBB, 0xBC, 0xBF, 0xC0, 0xC1, 0xDF, 0xE0, 0xF0, 0xFD, 0xFE, 0xFF, 0x55}
 	for ci, c := range codecs {
